@@ -1,4 +1,4 @@
-prop("C11", files={"root": ["vf_c11_test.go", "vf_c11_cycles_test.go", "vf_c18_ops_test.go", "vf_c18_events_test.go", "vf_c18_bytes_test.go", "vf_c18_resp_test.go", "vf_c18_fuzz_test.go", "vf_c18_cycles_test.go", "vf_c10_test.go", "vf_c14_common_test.go", "vf_c14_state_test.go", "vf_c14_chain_test.go", "vf_c14_load_test.go"] + RES + AUTH + EV}, shared={"root": J + ["vf_ids_test.go"]},
+prop("C11", files={"root": ["vf_c11_test.go", "vf_c11_cycles_test.go", "vf_c11_order_test.go", "vf_c18_ops_test.go", "vf_c18_events_test.go", "vf_c18_bytes_test.go", "vf_c18_resp_test.go", "vf_c18_fuzz_test.go", "vf_c18_cycles_test.go", "vf_c10_test.go", "vf_c14_common_test.go", "vf_c14_state_test.go", "vf_c14_chain_test.go", "vf_c14_load_test.go"] + RES + AUTH + EV}, shared={"root": J + ["vf_ids_test.go"]},
      assumptions=["results are compared as sets of event IDs; Go randomises map iteration per range statement, so repeated runs in one process exercise different iteration orders",
                   "for the version-1 resolver auth events are supplied as it documents them (the unconflicted auth events, one per state key)",
                   "duplicate events in an ordering input are a separate class: the output must be a permutation of the DISTINCT inputs"],
